@@ -38,11 +38,17 @@ pub fn c11_crash() {
     vsym::check("crash.database-still-there", n2.dbs.has_db("d"));
     if n2.dbs.has_db("d") {
         match peek(&n2.dbs, "d", "k0") {
-            Some(g) => vsym::check("crash.k0-old-or-new", (g.value == old0.value && g.version == old0.version) || (g.value == new0.value && g.version == new0.version)),
+            Some(g) => {
+                vsym::check("crash.k0-value-was-stored", g.value == old0.value || g.value == new0.value);      // never a value that was never stored
+                vsym::check("crash.k0-old-or-new", (g.value == old0.value && g.version == old0.version) || (g.value == new0.value && g.version == new0.version));
+            }
             None => vsym::check("crash.persisted-key-present", false),
         }
         match peek(&n2.dbs, "d", "key1") {
-            Some(g) => vsym::check("crash.key1-old-or-new", (g.value == old1.value && g.version == old1.version) || (match &new1 { Some(nv) => g.value == nv.value && g.version == nv.version, None => false })),
+            Some(g) => {
+                vsym::check("crash.key1-value-was-stored", g.value == old1.value || (match &new1 { Some(nv) => g.value == nv.value, None => false }));
+                vsym::check("crash.key1-old-or-new", (g.value == old1.value && g.version == old1.version) || (match &new1 { Some(nv) => g.value == nv.value && g.version == nv.version, None => false }));
+            }
             None => vsym::check("crash.persisted-key-present", kind == 2),     // gone only if it was being removed
         }
         match peek(&n2.dbs, "d", "$$token") { Some(t) => vsym::check("crash.neighbour-token-intact", t.value == "tok"), None => vsym::check("crash.neighbour-token-intact", false) }
